@@ -46,7 +46,8 @@ Record state := {
   pp : pparams; ap : aparams; ma : modaddrs;
   acl : list (bytes * bytes); dao_owner : bytes; params_raw : amap bytes;
   height : Z; btime : Z;
-  haspk : amap unit                  (* accounts whose record carries a public key (genesis) *)
+  haspk : amap bytes                 (* accounts whose record carries a public key (genesis): the ADDRESS of that key,
+                                        which is the account's own address unless the genesis file says otherwise *)
 }.
 
 (* setters, by hand *)
@@ -595,8 +596,7 @@ Definition ante (s : state) (t : tx) : option state :=         (* None = rejecte
   if a_max_memo (ap s) <? t_memo_len t then None
   else match (match t_attached t with
               | Some ka => Some ka
-              | None => match aget (haspk s) (msg_signer (t_msg t)) with   (* key looked up from the account *)
-                        | Some _ => Some (msg_signer (t_msg t)) | None => None end
+              | None => aget (haspk s) (msg_signer (t_msg t))           (* key looked up from the account *)
               end) with
   | None => None
   | Some ka =>
